@@ -170,6 +170,9 @@ func Flow(fn *ssa.Function, guards []Guard, derived ...Derived) *GuardFlow {
 			for _, in := range b.Instrs {
 				if v, ok := in.(ssa.Value); ok && g.Value(fn, v) {
 					gf.results[v] = append(gf.results[v], resRef{gi, 0})
+					if g.Comps[0].Kind == Executed {
+						gf.calls[in] = append(gf.calls[in], gi)
+					}
 				}
 			}
 		}
@@ -1195,4 +1198,42 @@ func Discover(p *Prog, fn *ssa.Function) []string {
 		}
 	}
 	return out
+}
+
+// LEFacts builds guards recognising every comparison form that establishes a <= b
+// (a <= b, b >= a on their true edge; a > b, b < a on their false edge) and, when
+// strictOK, also the strict forms a < b / b > a (true edge). The derived fact `name`
+// holds when any of them has been established.
+func LEFacts(name string, isA, isB func(fn *ssa.Function, v ssa.Value) bool, strictOK bool) ([]Guard, Derived) {
+	t := Guard{Name: name + "(true-form)", Comps: []Comp{{Result: -1, Kind: IsTrue}}, Value: func(fn *ssa.Function, v ssa.Value) bool {
+		bo, ok := v.(*ssa.BinOp)
+		if !ok {
+			return false
+		}
+		switch bo.Op {
+		case token.LEQ:
+			return isA(fn, bo.X) && isB(fn, bo.Y)
+		case token.GEQ:
+			return isB(fn, bo.X) && isA(fn, bo.Y)
+		case token.LSS:
+			return strictOK && isA(fn, bo.X) && isB(fn, bo.Y)
+		case token.GTR:
+			return strictOK && isB(fn, bo.X) && isA(fn, bo.Y)
+		}
+		return false
+	}}
+	f := Guard{Name: name + "(false-form)", Comps: []Comp{{Result: -1, Kind: IsFalse}}, Value: func(fn *ssa.Function, v ssa.Value) bool {
+		bo, ok := v.(*ssa.BinOp)
+		if !ok {
+			return false
+		}
+		switch bo.Op {
+		case token.GTR:
+			return isA(fn, bo.X) && isB(fn, bo.Y)
+		case token.LSS:
+			return isB(fn, bo.X) && isA(fn, bo.Y)
+		}
+		return false
+	}}
+	return []Guard{t, f}, Derived{Name: name, Alts: [][]string{{t.Name}, {f.Name}}}
 }
